@@ -82,7 +82,7 @@ theorem readLoopW_spec (cfg : Cfg) : ∀ fuel s rem w,
             have hovf : over cfg (s.bytesRead + c) = false := by simpa using hov
             obtain ⟨j1, j2, j3, k', j4, j5, j6⟩ :=
               ih { src := s.src.drop c, frag := s.frag.tail, failAt := s.failAt.map (· - 1),
-                   off := s.off + c, buffer := s.buffer, bytesRead := s.bytesRead + c, done := s.done }
+                   off := s.off + c, buffer := s.buffer, bytesRead := s.bytesRead + c, done := s.done, fins := s.fins }
                  (rem.map (· - c)) (w ++ s.src.take c)
             refine ⟨j1, j2, j3, c + k', ?_, ?_, ?_⟩
             · rw [j4]; simp only [List.append_assoc, List.take_add]
